@@ -175,7 +175,8 @@ def observe(fn, ip, rc, ser, rng, enc, col_present=True):
     """Run one call on a fresh object.  Returns (result literal, after literal, python-side facts,
     JSON description)."""
     from py_stringsimjoin.utils.converter import series_to_str, dataframe_column_to_str
-    facts = {'fresh_object': True, 'others_untouched': True}
+    facts = {'fresh_object': True, 'others_untouched': True, 'labels_kept': True}
+    labels = ser.index.tolist()
     if fn == 'series_to_str':
         obj = ser.copy()
         given = lambda: obj
@@ -188,6 +189,8 @@ def observe(fn, ip, rc, ser, rng, enc, col_present=True):
         n = len(ser)
         other = pd.Series([float(k) for k in range(n)], dtype=float)
         ident = pd.Series(list(range(n)), dtype='int64')
+        other.index = ser.index
+        ident.index = ser.index
         obj = pd.DataFrame({'id': ident, 'a': ser.copy(), 'z': other}, columns=['id', 'a', 'z'])
         given = lambda: obj['a']
         try:
@@ -215,6 +218,9 @@ def observe(fn, ip, rc, ser, rng, enc, col_present=True):
                                      and same_series(r['id'], obj['id']) and same_series(r['z'], obj['z']))
     else:
         raise ValueError('unmodelled result %r' % (r,))
+    if isinstance(r, (pd.Series, pd.DataFrame)):
+        facts['labels_kept'] = r.index.tolist() == labels
+    facts['labels_kept'] = facts['labels_kept'] and after.index.tolist() == labels
     after_lit = enc.series(after)
     after_desc = {'values': [repr(v) for v in after.tolist()], 'dtype': str(after.dtype)}
     # aliasing: writing into a returned copy must not reach the given object
@@ -307,13 +313,17 @@ def run(seed, n):
     for i, (dt, pat, (fn, ip, rc)) in enumerate(plan + extra_missing):
         col_present = i < len(plan)
         ser = make_series(rng, dt, pat)
+        if len(ser) and rng.random() < 0.5:      # a filtered table / id index / string index
+            labs = rng.sample(range(3, 400), len(ser))
+            ser.index = labs if rng.random() < 0.7 else ['r%d' % k for k in labs]
         cls = {'entry': fn, 'inplace': ip, 'dtype': {'float_whole': 'float', 'float_frac': 'float',
                                                      'object_mixed': 'object'}.get(dt, dt), 'nan': pat}
         if fn != 'series_to_str':
             cls['return_col'] = rc
         if not col_present:
             cls['column'] = 'absent'
-        call = {'values': [repr(v) for v in ser.tolist()], 'dtype': str(ser.dtype), 'variant': dt,
+        call = {'values': [repr(v) for v in ser.tolist()], 'index': [repr(v) for v in ser.index.tolist()],
+                'dtype': str(ser.dtype), 'variant': dt,
                 'function': fn, 'inplace': ip, 'return_col': rc, 'class': cls}
         try:
             in_lit = enc.series(ser)
@@ -354,6 +364,8 @@ def run(seed, n):
                            'spec: a returned series/frame is a new object, not aliased with the input'))
             detail.append(('true' if facts['others_untouched'] else 'false',
                            'spec: the other columns of the frame are untouched'))
+            detail.append(('true' if facts['labels_kept'] else 'false',
+                           'spec: the converted column / frame keeps the row labels of the input'))
             # one conjunction in the first pass; the clauses are told apart in a second pass
             exprs.append('forallb (fun b : bool => b) [%s]' % '; '.join(e for e, _ in detail))
             wh.append('spec: some clause')
